@@ -57,9 +57,20 @@ def correspond(ctx):
 
 def _post(c):
     st = c.get('stats') or {}
-    if isinstance(st, dict) and st.get('root_clashes'):
+    if not isinstance(st, dict):
+        return
+    if st.get('root_clashes'):
         c['ok'] = False
         c.setdefault('errors', []).append('root/content clash: ' + str(st['root_clashes'][:1]))
+    if st.get('generated_bad_ops'):
+        c['ok'] = False
+        c.setdefault('errors', []).append('%d well-formed generated lines were refused with bad-op (broken tie)' % st['generated_bad_ops'])
+    if st.get('alias_violations'):
+        c['ok'] = False
+        c.setdefault('errors', []).append('returned slice aliases reused memory: ' + str(st['alias_violations'][:1]))
+    if st.get('reference_clashes'):
+        c['ok'] = False
+        c.setdefault('errors', []).append('independent reference disagrees: ' + str(st['reference_clashes'][:1]))
 
 
 def search(ctx, hints):
